@@ -266,8 +266,17 @@ Theorem C08_three_disagree_exponent_one_refuted :
                             u == 3 # 1 /\ v == 6 # 1 /\ a == 6 # 1.
 Proof. exact UnitsProofs.three_disagree_exponent_one_refuted. Qed.
 Print Assumptions C08_three_disagree_exponent_one_refuted.
-(* NOT PROVED: that the validator's verdict (status of unitsAreEquivalent) equals Units::compatible on import-free defined
-   units; it is compared on every generated pair by the correspondence run and the oracle only. *)
+
+(** The validator's verdict (status of unitsAreEquivalent) for two defined units of a model is Units::compatible, in a world
+    without imports (the validator does not look into imported units) whose units are not named after standard units. *)
+Theorem C08_val_verdict_agrees_partial : forall fx f w mi n1 n2, import_free w -> nonstd_names w ->
+  is_defined f w mi n1 = Ok true -> is_defined f w mi n2 = Ok true ->
+  exists st q, val_equiv f w mi n1 n2 = Ok (st, q) /\
+               (st = true <-> compatible fx f w (Some (mi, n1)) (Some (mi, n2)) = Ok true).
+Proof. exact UnitsProofs.val_verdict_agrees_partial. Qed.
+Print Assumptions C08_val_verdict_agrees_partial.
+(* NOT PROVED: the same for the analyser's verdict (areSameUnitsMaps / ana_equiv); it is compared with the model on the
+   sampled public-route cases of the correspondence run only. *)
 
 (** ** termination *)
 
